@@ -262,7 +262,7 @@ float32_be_read (const unsigned char *cptr)
 	mantissa = ((cptr [1] & 0x7F) << 16) | (cptr [2] << 8) | (cptr [3]) ;
 
 	if (! (exponent || mantissa))
-		return 0.0 ;
+		return negative ? -0.0 : 0.0 ;
 
 	if (exponent)
 	{	mantissa |= 0x800000 ;
@@ -294,7 +294,7 @@ float32_le_read (const unsigned char *cptr)
 	mantissa = ((cptr [2] & 0x7F) << 16) | (cptr [1] << 8) | (cptr [0]) ;
 
 	if (! (exponent || mantissa))
-		return 0.0 ;
+		return negative ? -0.0 : 0.0 ;
 
 	if (exponent)
 	{	mantissa |= 0x800000 ;
